@@ -1533,6 +1533,9 @@ class ReceivePackHandler(PackHandler):
                                     "Attempted to delete refs without "
                                     "delete-refs capability."
                                 )
+                        elif sha not in self.repo.object_store:  # type: ignore[attr-defined]
+                            ref_status = b"missing necessary objects"
+                            has_failure = True
                         if ref_status == b"ok" and not self._ref_has_value(
                             ref, oldsha, zero_sha
                         ):
@@ -1596,6 +1599,8 @@ class ReceivePackHandler(PackHandler):
                                 ref_status = b"failed to update ref"
                         except all_exceptions:
                             ref_status = b"failed to delete"
+                    elif sha not in self.repo.object_store:  # type: ignore[attr-defined]
+                        ref_status = b"missing necessary objects"
                     else:
                         try:
                             if not self.repo.refs.set_if_equals(ref, oldsha, sha):
